@@ -627,6 +627,13 @@ def gen_ks(rng, tier):
         for m in rng.sample(char_perturbations(b.signed, sigexp, rng, 1), 5 if tier == "quick" else 30):
             if ks_ok(m) and b"\n" not in m:
                 cases.append(get_line(m, b.tok, True, b.ttl, b.key))
+        # case-only changes of the signature (always present: keepstore must refuse them too)
+        sig = b.signed[b.sig_at:b.sig_at + 40]
+        letters = [i for i in range(40) if sig[i:i + 1].isalpha()]
+        cases.append(get_line(b.signed[:b.sig_at] + sig.upper() + b.signed[b.sig_at + 40:], b.tok, True, b.ttl, b.key))
+        if letters:
+            i = b.sig_at + rng.choice(letters)
+            cases.append(get_line(b.signed[:i] + b.signed[i:i + 1].upper() + b.signed[i + 1:], b.tok, True, b.ttl, b.key))
         # remote hints with and without a local signature
         rh = b"+R" + rng.choice([b"zzzzz-" + b"a" * 40 + b"@" + b"%08x" % g_exp(rng), b"x", b"", b"abcde-x"])
         cases.append(get_line(b.unsigned + rh, b.tok, True, b.ttl, b.key))
